@@ -1205,6 +1205,35 @@ pub fn run(ctx: &mut Ctx, eng: &mut dyn Engine) {
         }
     }
 
+    // ---- 17. FDT File entry with an absurd Transfer-Length (a u64 in the XML; EXT_FTI only has 48 bits): 2^48, 2^63, 2^64 - 16,
+    //           2^64 - 1, FDT first (so the object takes the FDT's length), then the genuine packets of a small object.
+    //           `block_length` multiplies in u64: outside `WfFile` of C04.Obj.attach_total - what does the code do?
+    for tl_s in ["281474976710656", "9223372036854775808", "18446744073709551600", "18446744073709551615"] {
+        for (e, b) in [(16u16, 4u16), (1024, 64)] {
+            let oti = scheme_oti(0, e, b, 0, true);
+            let spec = ObjSpec { content: content(&mut rng, 40), cenc: Cenc::Null, inband_cenc: false, md5: false, oti: None, transfers: 1 };
+            let sess = match make_session(&oti, &[spec], 1, 1) {
+                Some(s) => s,
+                None => continue,
+            };
+            let o = sess.objs[0].clone();
+            let xml = fdt_xml(&[format!(
+                "<File TOI=\"{}\" Content-Location=\"file:///o0\" Content-Length=\"40\" Transfer-Length=\"{}\" FEC-OTI-FEC-Encoding-ID=\"0\" FEC-OTI-Maximum-Source-Block-Length=\"{}\" FEC-OTI-Encoding-Symbol-Length=\"{}\"/>",
+                o.toi, tl_s, b, e
+            )]);
+            let mut h: Vec<Option<Vec<u8>>> = fdt_packets(7, &xml).into_iter().map(Some).collect();
+            for raw in &sess.pkts {
+                if alc::parse_alc_pkt(raw).map(|p| p.lct.toi == o.toi).unwrap_or(false) {
+                    h.push(Some(raw.clone()));
+                }
+            }
+            h.push(None);
+            let cc = CaseCfg { expect_mode: None, ..Default::default() };
+            r.ctx.count("fdt-huge-tl");
+            r.case("fdt-huge-tl", &cc, &sess, &[], &h, false);
+        }
+    }
+
     // ---- 15. a TOI reused for DIFFERENT content while the older FDT instance that listed it is still retained
     //          (FDT-only OTI, no MD5, receive_once off): the new object must take the NEWEST instance listing the TOI
     for i in 0..(if thorough { 40 } else { 10 }) {
@@ -1244,9 +1273,10 @@ pub fn run(ctx: &mut Ctx, eng: &mut dyn Engine) {
         h.push(Some(format!("#expect {} g {}", sb.objs[0].toi, hex(&sb.objs[0].content)).into_bytes()));
         h.extend(all_pushed(&sb.pkts));
         if i % 2 == 1 {
-            // and once more the first content: stale packets of the OLD content are decoded under the new FDT entry (no oracle:
-            // they are not genuine for it; what the model predicts is compared)
-            h.push(Some(format!("#expect {} x -", sb.objs[0].toi).into_bytes()));
+            // and once more the first content: stale packets of the OLD content are decoded under the new FDT entry; a completed
+            // MIXTURE of symbols of both contents is the known class C03:toi-reuse-mixed-complete (finding orecv-2), any other
+            // completed bytes stay C03:complete-wrong-bytes
+            h.push(Some(format!("#expect {} r {}.{}", sb.objs[0].toi, e, hex(&sa.objs[0].content)).into_bytes()));
             h.extend(sa.pkts.iter().filter(|raw| alc::parse_alc_pkt(raw).map(|p| p.lct.toi != 0).unwrap_or(false)).cloned().map(Some));
         }
         h.push(None);
